@@ -6,7 +6,13 @@
  (3) monitors: a static context of exactly the estimated size completes every use (levels l <= L, any input size) and round-trips; its
      oversized-duration counter never moves;
  (4) streaming decoder: frames with windows around the limit W through static DStreams of exactly ZSTD_estimateDStreamSize(W) and heap
-     DStreams with a counting allocator: verdict = DBuf.windowAccepted, peak bytes = sizeof(DCtx) + DBuf.neededBuffers, ZSTD_sizeof_* >= live bytes."""
+     DStreams with a counting allocator: verdict = DBuf.windowAccepted, peak bytes = sizeof(DCtx) + DBuf.neededBuffers, ZSTD_sizeof_* >= live bytes;
+ (5) static contexts of exactly ZSTD_estimate{CCtx,CStream}Size_usingCParams(c), used with exactly c at source sizes around every power of two
+     up to the window (where ZSTD_adjustCParams re-resolves the logs and the match-finder flavour) under the three row-finder settings:
+     every use must fit, its reservations are tied to the model, and the hypothesis of Props.C14.usingCParams_covers is evaluated on it;
+ (6) hand-written frame headers (1-, 2-, 4- and 8-byte content sizes of single-segment frames up to 2^64-1, every window descriptor incl.
+     those above ZSTD_WINDOWLOG_MAX) x limits set three ways: the Lean model parses the header itself and decides (Props.C14.refused_iff,
+     huge_window_refused); refusals must carry the window verdict and no allocator request may exceed ZSTD_estimateDStreamSize(limit)."""
 import re
 import build, zv, frames
 
@@ -84,6 +90,119 @@ def raw_frame(rng, wlog, mant, content, fcs_mode, single=False):
     return bytes(out), wsize
 
 
+def cparams_static_lines(rng, quick):
+    """(5) ws scenarios for static contexts sized by ZSTD_estimate*_usingCParams (sizing directive 9998=1) and used with exactly those cParams.
+    Directed, independent of the random seed: window logs 11..18 x the three strategies with a row finder (+ one strategy of every other kind)
+    x table shapes (chain table much larger than the hash table, and the reverse) x row finder left to the library / forced on / forced off
+    x one-shot and streaming (size pledged) x source sizes just below, at and just above each power of two up to the window and around the
+    16 KB row-finder threshold.  A few random vectors are added on top."""
+    out = []
+
+    def sizes_for(w):
+        szs = [1000, 1 << (w - 2)]
+        for j in (w - 1, w):
+            szs += [(1 << j) - (1 << j) // 32, (1 << j) - 1, 1 << j, (1 << j) + 1]
+        szs += [16384 - 512, 16384, 16385, min(3 << w, 400000)]
+        seen, res = set(), []
+        for z in szs:
+            if z not in seen:
+                seen.add(z); res.append(z)
+        return res[:16]
+
+    def line(cp, row, stream, mis, sizes, pledged_known=True, by_cparams=True):
+        w, c, h, sl, mm, tl, st = cp
+        spec = "101=%d,103=%d,102=%d,104=%d,105=%d,106=%d,107=%d" % (w, c, h, sl, mm, tl, st) + (",9998=1" if by_cparams else "")
+        if row:
+            spec += ",1011=%d" % row
+        parts = ["%s %d %d" % (spec, z, z if (stream and pledged_known) else -1) for z in sizes]
+        return "ws 1 %d %d 0 %d %d %s" % (stream, mis, len(sizes), len(sizes), " ".join(parts)), (("cstream" if stream else "cctx", ",".join(map(str, cp))) if by_cparams else None)
+    idx = 0
+    for w in range(11, 19):
+        for shape in (0, 1):
+            for st in (3, 4, 5, 1 + (w + shape) % 2, 6 + (w + shape) % 4):
+                if quick and st not in (3, 4, 5) and shape == 1:
+                    continue
+                mm = 4 + (idx % 3)
+                c, h = (w, 6 + idx % 4) if shape == 0 else (6 + idx % 3, w + 1)
+                cp = (w, c, h, 1 + idx % 6, mm, 0, st)
+                rows = (0, 1, 2) if 3 <= st <= 5 else (0,)
+                for row in rows:
+                    for stream in (0, 1):
+                        out.append(line(cp, row, stream, (0, 8, 24, 56)[idx % 4], sizes_for(w)))
+                        if row and (w + stream + shape) % 2 == 0:
+                            # the sibling estimate ZSTD_estimate*_usingCCtxParams sees the caller's row-finder choice: same uses, flavour forced either way
+                            out.append(line(cp, row, stream, (0, 8, 24, 56)[idx % 4], sizes_for(w), by_cparams=False))
+                        idx += 1
+    out.sort(key=lambda lm: "1011=" in lm[0])       # row finder left to the library first (stable)
+    for i in range(10 if quick else 300):
+        w = rng.randint(10, 19)
+        cp = (w, rng.randint(6, w + 1), rng.randint(6, w + 2), rng.randint(1, 7), rng.randint(3, 7), rng.choice([0, 16, 999]), rng.randint(1, 9))
+        szs = [rng.choice([1, 300, 5000]), rng.randint(1 << (w - 1), 1 << w), (1 << w) + rng.randint(1, 5000), rng.randint(15000, 16500)]
+        out.append(line(cp, rng.choice([0, 0, 1, 2]) if 3 <= cp[6] <= 5 else 0, rng.randint(0, 1), rng.choice([0, 8, 16, 40]), szs, pledged_known=rng.random() < 0.6))
+    return out
+
+
+RAW16 = (16 << 3).to_bytes(3, "little") + bytes(range(65, 81))      # a raw block of 16 bytes, not the last one: the frame stays open
+
+
+def header_frame(single, fcs_bytes, fcs_value, wlog=10, mant=0):
+    """hand-written frame header (no dictionary id, no checksum) followed by one 16-byte raw block that is not the last: only the header
+    decision is exercised, the content size need not be reachable.  fcs_bytes in (0, 1, 2, 4, 8); (1 only with single, 0 only without)."""
+    code = {0: 0, 1: 0, 2: 1, 4: 2, 8: 3}[fcs_bytes]
+    if fcs_bytes:            # what the field can say
+        fcs_value = (fcs_value - 256) % 65536 + 256 if fcs_bytes == 2 else fcs_value % (1 << (8 * fcs_bytes))
+    out = bytearray(b"\x28\xb5\x2f\xfd")
+    out.append((code << 6) | (0x20 if single else 0))
+    if not single:
+        out.append(((wlog - 10) << 3) | mant)
+    if fcs_bytes == 2:
+        out += (fcs_value - 256).to_bytes(2, "little")
+    elif fcs_bytes:
+        out += fcs_value.to_bytes(fcs_bytes, "little")
+    window = fcs_value if single else (1 << wlog) + ((1 << wlog) >> 3) * mant
+    return bytes(out) + RAW16, window
+
+
+def hostile_header_cases(rng, quick):
+    """(6) (frame, window as the generator understands it) list.  Directed: content sizes of single-segment frames in every field width with
+    values at and around 2^16, 2^31, 2^32, multiples of 2^32 plus a remainder that is below / at / above the limits used, 2^63, 2^64-1;
+    window descriptors 10..41 (above 31 the header parser itself must refuse) with and without an 8-byte content size."""
+    T = 1 << 32
+    limits = [1024, 1500, 1 << 17, 1000000, 1 << 20, 1 << 27]
+    v8 = [T - 1, T, T + 1, T + 512, T + 1023, T + 1024, T + 1025, T + 65536, 2 * T, 2 * T + 1024, 3 * T + 1000000, 256 * T + 4096, (1 << 40) + (1 << 20),
+          (1 << 48) + 1024, (1 << 62) + 1024, 1 << 63, (1 << 63) + 2048, (1 << 64) - 1, (1 << 64) - 2, (1 << 64) - T + 1024, (1 << 31), (1 << 31) + 1, (1 << 31) + 1024,
+          65536 + 1024, 3 * 65536 + 512, 1023, 1024, 1025]
+    for W in limits:
+        v8 += [T + W - 1, T + W, T + W + 1, 5 * T + W, W - 1, W, W + 1]
+    v4 = [T - 1, T - 1024, (1 << 31) - 1, 1 << 31, (1 << 31) + 1, (1 << 31) + 1000, 65536 + 512, 2 * 65536 + 1024, 65536 + 256, 1 << 24, (1 << 24) + 1] + [W + d for W in limits for d in (-1, 0, 1)]
+    v2 = [256, 1023 + 256, 1024, 1025, 1500, 1501, 65535 + 256]
+    cases = []
+    for v in dict.fromkeys(v8):
+        cases.append(header_frame(True, 8, v))
+    for v in dict.fromkeys(v4):
+        cases.append(header_frame(True, 4, v))
+    for v in v2:
+        cases.append(header_frame(True, 2, v))
+    for v in (16, 255):
+        cases.append(header_frame(True, 1, v))
+    for wlog in range(10, 42):
+        mants = (0, 7) if (wlog % 3 or wlog > 32) else (0, 1, 4, 7)
+        if wlog in (30, 31, 32):
+            mants = range(8)
+        for mant in mants:
+            fb = (0, 8, 4)[(wlog + mant) % 3]
+            cases.append(header_frame(False, fb, {0: 0, 8: T + 512 + mant, 4: 70000 + wlog}[fb], wlog, mant))
+    for i in range(20 if quick else 2000):
+        k = rng.random()
+        if k < 0.5:
+            cases.append(header_frame(True, 8, rng.randrange(1, 1 << rng.choice([20, 31, 32, 33, 40, 63])) * T + rng.choice([0, 1, rng.randrange(1 << 12), rng.randrange(1 << 21), rng.randrange(T)])))
+        elif k < 0.7:
+            cases.append(header_frame(True, 4, rng.randrange(1024, T)))
+        else:
+            cases.append(header_frame(False, rng.choice([0, 4, 8]), rng.randrange(300, 1 << 34), rng.randint(10, 41), rng.randint(0, 7)))
+    return [(fr, w) for fr, w in cases]
+
+
 def correspondence(ctx):
     rng = ctx.rng
     quick = ctx.quick()
@@ -126,6 +245,11 @@ def correspondence(ctx):
     for i in range(4 if quick else 30):
         L = rng.choice([3, 5, 7, 9])
         wl.append("ws %d %d 0 0 %d 2 100=%d %d -1 100=%d %d -1" % (1 if i % 4 != 3 else 0, i % 2, rng.choice([135, 140, 150]), L, rng.choice([2000, 5000, 20000]), rng.choice([1, 2, L]), rng.choice([500, 1500])))
+    cpmeta = {}
+    for ln, m in cparams_static_lines(rng, quick):
+        wl.append(ln)
+        if m:
+            cpmeta[ln] = m
     exe = hx_ws()
 
     def runws(chunk):
@@ -166,7 +290,9 @@ def correspondence(ctx):
         # monitors (property statements on this run)
         if g[1] != "ok" or g[13] != "1":
             if isstatic or g[1] not in ("ok",):
-                ctx.violation("%s context %s use %d of [%s]: %s (round trip %s) need=%s size=%s" % ("static (estimated size)" if isstatic else "heap", "refused" if g[1] != "ok" else "corrupted", k + 1, ln[:160], g[1], g[13], g[6], g[4]),
+                tk = ln.split(); q_ = 7 + 3 * (k % int(tk[6]))
+                ctx.violation("%s context %s use %d of [%s]: %s (round trip %s) need=%s size=%s; this use: parameters %s, %s source bytes, pledged %s, %s" % ("static (estimated size)" if isstatic else "heap", "refused" if g[1] != "ok" else "corrupted", k + 1, ln[:160], g[1], g[13], g[6], g[4],
+                                                                                                                                     tk[q_], tk[q_ + 1], tk[q_ + 2], "streaming" if tk[2] == "1" else "one-shot"),
                               dict(kind="monitor", op=ln, use=k, result=o))
                 continue
         ml_ = re.fullmatch(r"100=(\d+)", ln.split()[7 + 3 * (k % int(ln.split()[6]))]) if isstatic and ln.split()[2] == "0" else None
@@ -205,6 +331,26 @@ def correspondence(ctx):
                               dict(kind="tie-workspace", op=ln, use=k, driver_line=d, code=o, model=mline), no_input=True)
                 break
         samples.append(dict(op=meta[0][0], code=meta[0][2][:300], model=mo[0][:300]))
+    # (5) hypothesis and conclusion of Props.C14.usingCParams_covers on every use of a context sized by ZSTD_estimate*_usingCParams
+    cvl = [(ln, k, o, g) for (ln, k, o, g) in meta if ln in cpmeta]
+    ncov = 0
+    if cvl:
+        rcm, mout, merr = zv.run([zv.driver_exe(), "mem"], "\n".join("cov %s %s %s" % (cpmeta[ln][0], cpmeta[ln][1], g[2]) for ln, k, o, g in cvl) + "\n", timeout=600)
+        for (ln, k, o, g), mline in zip(cvl, mout.split("\n")):
+            mm = re.match(r"le=(\d) need=(\d+) pub=(\d+)", mline)
+            if not mm:
+                ctx.violation("model driver (cov): " + mline[:200], dict(kind="internal"), no_input=True); break
+            ncov += 1
+            what = "%s context sized by ZSTD_estimate%sSize_usingCParams(%s), use %d of [%s]" % (cpmeta[ln][0], "CStream" if cpmeta[ln][0] == "cstream" else "CCtx", cpmeta[ln][1], k + 1, ln[:150])
+            if mm.group(1) != "1":
+                ctx.violation("applied parameters are not dominated by the cParams the estimate was asked about: %s: applied %s" % (what, g[2]),
+                              dict(kind="oracle-validity(usingCParams_covers)", op=ln, use=k, result=o, model=mline), no_input=True)
+            elif int(g[4]) != int(mm.group(3)):
+                ctx.violation("static block of the estimated size is %s bytes, the model of the public estimate says %s: %s" % (g[4], mm.group(3), what),
+                              dict(kind="tie-estimate", op=ln, use=k, result=o, model=mline))
+            elif int(g[6]) > int(g[4]):
+                ctx.violation("the sizing routine wants %s bytes for the applied parameters, the estimate gave %s: %s" % (g[6], g[4], what),
+                              dict(kind="monitor", op=ln, use=k, result=o, model=mline))
     # ---------- (4) decoder window limit ----------
     dlines, dmeta = [], []
     nd = 220 if quick else 4000
@@ -264,6 +410,54 @@ def correspondence(ctx):
                 ctx.violation("ZSTD_sizeof_DCtx under-reports: %d < %d live bytes (%s)" % (szof, live, short), dict(kind="monitor", op=ln, result=o))
     ev += len(dlines); distinct |= set(dlines)
     samples.append(dict(op=dlines[0][:200], code=outs[0] if outs else "", model=mo[0]))
+    # ---------- (6) hand-written headers: the model parses the header and decides ----------
+    hl, hmeta = [], []
+    hcases = hostile_header_cases(rng, quick)
+    for ci, (fr, window) in enumerate(hcases):
+        combos = [("dstatic", (1024, 1500)[ci % 2]), ("dstatic", 1 << 20), ("dstatic", 1 << 27), ("dheapw", 1500), ("dheapw", 1000000), ("dheapw", 1 << 31),
+                  ("dheap", 10), ("dheap", 20), ("dheap", 31)]
+        combos.append((rng.choice(["dstatic", "dheapw"]), rng.choice([1024, 4096, 65536, 1 << 17, (1 << 17) + 1, 12345678, 1 << 24])))
+        for mode, lim in combos:
+            limit = (1 << lim) if mode == "dheap" else lim
+            if 1024 <= window <= limit and window > (1 << 28):
+                continue            # would be accepted and make the decoder ask for more than 256 MB of real memory: left to the model
+            ic = ("100000", "1", "5,8")[(ci + len(hl)) % 3]
+            oc = ("100000", "4000000", "50")[(ci + len(hl) // 2) % 3]
+            hl.append("%s %d %s %s %s" % (mode, lim, fr.hex(), ic, oc))
+            hmeta.append((mode, limit, window, int(oc)))
+    nhh = len(hl)
+    houts = frames.parallel(lambda ch: frames.run_lines(exe_m, ch, timeout=3000)[1], frames.split_chunks(hl, 16))
+    if len(houts) != len(hl):
+        ctx.violation("decoder budget harness crashed / lost lines on hand-written headers (%d of %d)" % (len(houts), len(hl)), dict(kind="monitor"), no_input=True)
+    rcm, mout, merr = zv.run([zv.driver_exe(), "mem"], "\n".join("dhdr %s %d %d 0" % (ln.split()[2], m[1], m[3]) for ln, m in zip(hl, hmeta)) + "\n", timeout=600)
+    hverd = {}
+    for ln, o, m, mline in zip(hl, houts, hmeta, mout.split("\n")):
+        mm = re.match(r"verdict=(\w+) held=(\d+) est=(\d+) window=(\S+) fcs=(\S+) bsm=(\d+)", mline)
+        if not mm:
+            ctx.violation("model driver (dhdr): %s on %s" % (mline[:100], ln[:120]), dict(kind="internal", op=ln), no_input=True); break
+        v, held, est = mm.group(1), int(mm.group(2)), int(mm.group(3))
+        acc, ok = v != "refused", o.startswith("ok")
+        hverd[(m[0], v, ok)] = hverd.get((m[0], v, ok), 0) + 1
+        short = "%s limit=%d header=%s window=%s content-size-field=%s" % (m[0], m[1], ln.split()[2][:34], mm.group(4), mm.group(5))
+        pm = re.search(r"peak=(\d+) sizeof=(\d+) live=(\d+) est=(\d+)(?: bigreq=(\d+))?", o)
+        if pm and pm.group(5):
+            ctx.violation("streaming decoder asked its allocator for %s bytes, ZSTD_estimateDStreamSize(limit) = %s (%s)" % (pm.group(5), pm.group(4), short), dict(kind="monitor", op=ln, result=o, model=mline))
+            continue
+        if acc != ok:
+            ctx.violation("decoder window limit, hand-written header: model says %s, decoder says %s (%s)" % (v, o[:80], short), dict(kind="monitor+tie", op=ln, result=o, model=mline))
+            continue
+        if not acc and "window_too_large" not in o:
+            ctx.violation("frame beyond the window limit refused with the wrong verdict: %s (%s)" % (o[:80], short), dict(kind="monitor", op=ln, result=o, model=mline))
+            continue
+        if pm:
+            peak, szof, live = int(pm.group(1)), int(pm.group(2)), int(pm.group(3))
+            if acc and peak > sz_dctx + est:
+                ctx.violation("streaming decoder allocated %d bytes > ZSTD_estimateDStreamSize(limit) = %d (%s)" % (peak, sz_dctx + est, short), dict(kind="monitor", op=ln, result=o))
+            elif acc and peak != sz_dctx + held:
+                ctx.violation("streaming decoder held %d bytes, the sizing model says sizeof(DCtx) %d + buffers %d (%s)" % (peak, sz_dctx, held, short), dict(kind="tie-dbuf", op=ln, result=o, model=mline), no_input=True)
+            if szof < live:
+                ctx.violation("ZSTD_sizeof_DCtx under-reports: %d < %d live bytes (%s)" % (szof, live, short), dict(kind="monitor", op=ln, result=o))
+    ev += len(hl); distinct |= set(hl)
     # ---------- sizeof_* >= live ----------
     sl = []
     for i in range(40 if quick else 600):
@@ -346,8 +540,10 @@ def correspondence(ctx):
     ev += len(ql); distinct |= set(ql)
     return dict(evaluations=ev, distinct_nontrivial=len(distinct),
                 rule="est lines (random cParams x {cctx,cstream}); ws scenarios (static/heap x one-shot/stream x misalignment x 1..150 uses with levels l<=L or explicit parameter sets incl. LDM, row finder, maxBlockSize, external producer) "
-                     "with every use compared field by field with the Lean workspace model; decoder frames (window 1 KiB..3.5 MiB incl. mantissas, FCS present/absent, single segment) x limits at / around the window; sizeof lines. distinct = distinct op lines",
-                samples=samples[:4], ws_use_lines=len(uselines), level_covers_hypothesis_checked=stats_lv[0], decoder_verdicts={"%s model=%s decoded=%s" % k: v for k, v in verd.items()})
+                     "with every use compared field by field with the Lean workspace model; decoder frames (window 1 KiB..3.5 MiB incl. mantissas, FCS present/absent, single segment) x limits at / around the window; hand-written headers (content sizes of every field width up to 2^64-1, descriptors 10..41) x limits set by bytes / by log / static, decided by the model from the header bytes; "
+                     "static contexts sized by estimate*_usingCParams used with exactly those cParams at source sizes around each power of two x row finder auto/on/off; sizeof lines. distinct = distinct op lines",
+                samples=samples[:4], ws_use_lines=len(uselines), usingCParams_static_uses=ncov, hostile_header_ops=nhh, level_covers_hypothesis_checked=stats_lv[0], decoder_verdicts={"%s model=%s decoded=%s" % k: v for k, v in verd.items()},
+                hostile_header_verdicts={"%s model=%s decoded=%s" % k: v for k, v in sorted(hverd.items())})
 
 
 def replay(ctx, data):
@@ -357,4 +553,9 @@ def replay(ctx, data):
     else:
         rc, out, err = frames.run_lines(hx_mem("plain"), [op])
     bad = rc != 0 or any(("rc=" in o and "rc=ok" not in o) or " rt=0" in o for o in out)
+    mline = data.get("model") or ""
+    if op.split(" ")[0] in ("dstatic", "dheap", "dheapw") and isinstance(mline, str) and mline.startswith("verdict=") and out:
+        refused = mline.startswith("verdict=refused")
+        o = out[0]
+        bad = bad or "bigreq=" in o or refused != (not o.startswith("ok")) or (refused and "window_too_large" not in o)
     return dict(violates=bad, result=out)
